@@ -97,14 +97,22 @@ def _models(eng, extra, timeout_ms=1500):
     floating-point replay follows the same path), then any model."""
     s = eng.solver
     inputs = [(name, v) for name, v in list(eng.vars.items()) if "!" not in name and z3.is_real(v)]
-    for bound in (1024, 2 ** 20):
+    # values produced by harness stubs (fresh reals "name!N"; engine-internal ones are "name!iN") reach the real code
+    # in a replay like inputs do: prefer models in which they are exactly representable as well, so that float
+    # subtraction of two of them cannot flip a comparison that is a tie in exact arithmetic
+    import re as _re
+    stub_vals = [(name, v) for name, v in list(eng.vars.items()) if _re.search(r"![0-9]+$", name) and z3.is_real(v)]
+    for bound, vs in ((1024, inputs + stub_vals), (1024, inputs), (2 ** 20, inputs)):
+        if vs is not inputs and not stub_vals:
+            continue
         s.push()
         try:
             s.set("timeout", timeout_ms)
-            for name, v in inputs:
+            for name, v in vs:
                 k = z3.Int("dy$" + name)
                 s.add(v * 1024 == z3.ToReal(k))
-                s.add(v >= -bound, v <= bound)
+                b_ = bound if "!" not in name else 2 ** 20
+                s.add(v >= -b_, v <= b_)
             r = s.check(*extra)
             if r == z3.sat:
                 eng.last_model_dyadic = True
@@ -126,7 +134,7 @@ def _dyadic_model(eng, extra, timeout_ms=4000, float_safe_only=False):
     n = 0
     for m in _models(eng, extra, timeout_ms):
         n += 1
-        if float_safe_only and n > 2:
+        if float_safe_only and n > 3:
             return None
         if float_safe_only and not getattr(eng, "last_model_dyadic", False):
             return None
